@@ -440,7 +440,7 @@ Proof.
     destruct (negb (g_versioned (sindex s) p) && negb (isdir (sdisk s) p)); [intros H; inversion H; subst; split; assumption|].
     destruct (exists_ (sdisk s) q); [intros H; inversion H; subst; split; assumption|].
     destruct (negb (isdir (sdisk s) p) && negb (memp p (sindex s))); [intros H; inversion H; subst; split; assumption|].
-    destruct (os_rename_err (sdisk s) p q) as [[]|]; try (intros H; inversion H; subst; split; assumption).
+    destruct (os_rename_err (sdisk s) p q); [intros H; inversion H; subst; split; assumption|].
     apply Hfin.
 Qed.
 
@@ -508,14 +508,12 @@ Proof.
     apply git_rename_one_valid; assumption.
   - apply bzr_commit_valid; assumption.
   - (* Git commit *) unfold git_commit. destruct Hv as [Hi Hb].
-    destruct (g_notadir s); [intros H; inversion H; subst; split; assumption|].
-    destruct (git_pairs s true); [discriminate|].
     intros H; inversion H; subst; simpl. split.
     + apply NoDup_filter; assumption.
     + apply NoDup_map_filter. rewrite map_map. simpl. rewrite map_id. assumption.
   - apply bzr_revert_valid; assumption.
   - (* Git revert *) unfold git_revert. destruct Hv as [Hi Hb].
-    destruct (g_notadir s); [intros H; inversion H; subst; split; assumption|].
+    destruct (g_notadir s); [discriminate|].
     destruct (negb (git_revert_guard s)); [discriminate|].
     destruct (revert_disk _ _ _ _ _ _); [|discriminate].
     intros H; inversion H; subst; simpl. split; assumption.
